@@ -116,7 +116,10 @@ check("C06", "model_checking",
 
 check("C07", "model_checking",
       "spec/SplitRecovery.FlatShards + Recover: TLC checks that the recovered pieces of all shard ranks partition every parameter "
-      "(ExactlyOnceAcrossShards) for every shape list in bounds; ShampooDist covers one replicate column (HSDP). The spec's shard metadata "
+      "(ExactlyOnceAcrossShards) for every shape list in bounds; ShampooDist covers one replicate column (HSDP); spec/MeshMC checks, for every "
+      "arrangement of the ranks in a 2-D mesh and every group size, that all ranks create the same DeviceMeshes in the same order and that a "
+      "block's state lives where its owner's group rank points (the per-rank mesh-creation logs of the simulated runs, incl. meshes whose "
+      "replicate dimension is not ascending, are validated by TLC against DistCore!MeshMissesC). The spec's shard metadata "
       "and pieces (evaluated by TLC) drive the real FSDPDistributor / HSDPDistributor on simulated ranks; the oracle is the serial "
       "optimizer on the recovered sub-tensors as independent parameters (communicated quantity rounded for HSDP), bitwise after every "
       "step on every rank; per-column gather logs are validated by TLC.",
@@ -125,9 +128,11 @@ check("C07", "model_checking",
       "DESIGN.md §5 C07")
 check("C08", "model_checking",
       "spec/SplitRecovery.Dim0Pieces: TLC checks that dim-0 chunking gives one slab per rank partitioning every parameter; ShampooDist covers "
-      "one replicate column (hybrid). Real DTensor parameters and gradients (built from the spec's slabs) run under FullyShardDistributor / "
+      "one replicate column (hybrid); spec/MeshMC: DeviceMesh creation agreement and state placement for every arrangement of a 2-D mesh "
+      "(per-rank mesh-creation logs validated by TLC, also on meshes whose replicate dimension is not ascending). Real DTensor parameters and gradients (built from the spec's slabs) run under FullyShardDistributor / "
       "HybridShardDistributor on simulated ranks; oracle: the serial optimizer on the local slabs (rounded for hybrid), bitwise after every "
-      "step on every rank incl. ranks with empty local shards of some parameters; gather logs validated by TLC.",
+      "step on every rank incl. ranks with empty local shards of some parameters and gradients that are present but exactly zero on a "
+      "rank's rows; gather logs validated by TLC.",
       "DTensors are built with from_local (no collectives). Threaded process group as transport.",
       "TLA+ spec model-checked by TLC + spec-as-oracle shard layout + simulated-rank replay (bitwise) + TLC validation of collective logs",
       "DESIGN.md §5 C08")
